@@ -11,9 +11,12 @@
 (*                   every tree of depth 2 whose first child is that atom  *)
 (*                   (all partners when Partners = 0, else a seeded choice *)
 (*                   of Partners atoms per atom and connective)            *)
-(*   Mode = "walk"   -simulate: random growth of two trees that are        *)
-(*                   wrapped / combined at every step (deep, bushy trees)  *)
-(*   Mode = "rw"     C19: for a seeded choice of predicates, every rewrite *)
+(*   Mode = "walk"   Walks pseudo-random walks of WalkLen steps: two trees  *)
+(*                   are wrapped / extended / merged at every step (deep,  *)
+(*                   bushy trees); every choice is a fixed function of     *)
+(*                   (Seed, walk number, step), so a seed names the trees  *)
+(*   Mode = "rw"     C19: for a seeded choice of predicates (every         *)
+(*                   Stride-th atom and its partners), every rewrite       *)
 (*                   with the expected answer of every variant             *)
 (*   Mode = "opq"    C19: compounds over OPAQUE atoms A, B, C with their   *)
 (*                   truth table over all 27 valuations                    *)
@@ -36,9 +39,14 @@ CONSTANTS Mode,        \* "bfs" | "walk" | "rw" | "opq"
           Partners,    \* bfs/rw: 0 = all atoms as second operand, k > 0 = seeded choice of k atoms
           Seed,        \* seeds the choice (0..999)
           EmitNodes,   \* emit per-node expected values with every case
-          CheckLaws    \* evaluate the meta-invariants on every enumerated expression
+          CheckLaws    \* "all": the meta-invariants (Laws) on every enumerated expression; "some": on every atom, every
+                       \* depth-2 tree over every 16th atom; "none"
 
-VARIABLE st            \* [lvl, k (atom number at level 1), e (the tree), e2 (second tree: walk / extra atom: rw)]
+CONSTANTS Walks, WalkLen,   \* walk mode: number of walks, steps per walk
+          Stride            \* rw mode: use the atoms k with (k + Seed) % Stride = 0
+
+VARIABLE st            \* [lvl, k (atom number / walk number), m (bfs: number of the second atom, 0 = none), e (the tree),
+                       \*  e2 (second tree: walk / extra atom: rw)]
 
 ---------------------------------------------------------------------------
 (* the fixed tables *)
@@ -48,12 +56,12 @@ FVals == <<Null, FloatV(1), FloatV(2), FloatV(4)>>
 SVals == <<Null, Txt(<<>>), Txt(<<"a">>), Txt(<<"b">>), Txt(<<"a", "b">>)>>
 NRows == Len(IVals) * Len(FVals) * Len(SVals)      \* 100
 
-Table == [id \in 1..NRows |->
+Table == TLCEval([id \in 1..NRows |->
             LET z == id - 1 IN
             [id |-> IntV(id),
              i  |-> IVals[(z \div (Len(FVals) * Len(SVals))) + 1],
              f  |-> FVals[((z \div Len(SVals)) % Len(FVals)) + 1],
-             s  |-> SVals[(z % Len(SVals)) + 1]]]
+             s  |-> SVals[(z % Len(SVals)) + 1]]])
 
 (* second table for the FROM-reordering rewrites of C19: u(uid, k) *)
 KVals == <<Null, IntV(0), IntV(1)>>
@@ -139,11 +147,27 @@ Atoms   == {AtomSeq[j] : j \in 1..NAtoms}
 PickIdx(k, j) == ((k * 7919 + j * 10429 + (Seed % 1000) * 31337 + (k * j * 13) ) % NAtoms) + 1
 PartnerIdx(k) == IF Partners = 0 THEN 1..NAtoms ELSE {PickIdx(k, j) : j \in 1..Partners}
 
-(* depth-2 trees whose first child is atom number k *)
-Grow(k) == LET a == AtomSeq[k] IN
-           {a, NotE(a), IsNullE(a), IsNotNullE(a)}
-           \cup {AndE(a, AtomSeq[m]) : m \in PartnerIdx(k)}
-           \cup {OrE(a, AtomSeq[m]) : m \in PartnerIdx(2 * k + 1)}
+(* Memo for the bfs mode: the value vector of every atom, computed ONCE with Eval (TLCEval forces the lazy function
+   constructors).  A depth-2 tree over atoms k and m then gets its vector from the vectors of k and m by the
+   Kleene connectives - which is what Eval does by definition; FastIsEval states that and is checked by TLC on
+   every expression on which the laws are checked. *)
+AtomVal == TLCEval([k \in 1..NAtoms |-> TLCEval([id \in 1..NRows |-> Eval(AtomSeq[k], Table[id])])])
+
+FastVec(e, k, m) ==
+    LET va == AtomVal[k] IN
+    IF m = 0
+    THEN (IF e = AtomSeq[k] THEN va
+          ELSE CASE e.op = "not"       -> [id \in 1..NRows |-> Not3(va[id])]
+                 [] e.op = "isnull"    -> [id \in 1..NRows |-> B3(va[id] = "N")]
+                 [] e.op = "isnotnull" -> [id \in 1..NRows |-> B3(va[id] # "N")])
+    ELSE LET vb == AtomVal[m] IN
+         CASE e.op = "and" -> [id \in 1..NRows |-> And3(va[id], vb[id])]
+           [] e.op = "or"  -> [id \in 1..NRows |-> Or3(va[id], vb[id])]
+FastIsEval(e, k, m) == \A id \in 1..NRows : FastVec(e, k, m)[id] = Eval(e, Table[id])
+
+RECURSIVE PackVecGroup(_, _, _, _)
+PackVecGroup(v, base, k, G) == IF k = G THEN 0 ELSE Code(v[base + k + 1]) + 3 * PackVecGroup(v, base, k + 1, G)
+PackVec(v, n, G) == [g \in 1..(n \div G) |-> PackVecGroup(v, (g - 1) * G, 0, G)]
 
 ---------------------------------------------------------------------------
 (* C19: rewrites of a predicate p. Every rewrite is a record
@@ -234,6 +258,10 @@ Laws(e) ==
          /\ (p.op = "lit" /\ p.val.k = "text") =>                       \* appending % never loses a match
                \A id \in 1..NRows : Eval(LikeE(x, p), Table[id]) = "T" => Eval(LikeE(x, Lit(Txt(p.val.c \o <<"%">>))), Table[id]) = "T"
 
+LawsDue(e, k) == \/ CheckLaws = "all"
+                 \/ (CheckLaws = "some" /\ Depth(e) = 1)                          \* every atom (the definitions of the operators)
+                 \/ (CheckLaws = "some" /\ Depth(e) = 2 /\ (k + Seed) % 16 = 0)    \* the connectives on a slice of the trees
+
 RewriteSound(rw, T) == rw.same => \A j \in 2..Len(rw.variants) : SameOn(rw.variants[1], rw.variants[j], T)
 
 ---------------------------------------------------------------------------
@@ -247,40 +275,58 @@ EmitCase(e) == PrintT(<<"T", ToJson(CaseRec(e))>>)
 
 RwRec(rw, T, G, extra) == [kind |-> rw.kind, same |-> rw.same, on |-> extra,
                            variants |-> [j \in 1..Len(rw.variants) |-> Show(rw.variants[j])],
-                           vals |-> [j \in 1..Len(rw.variants) |-> Pack(rw.variants[j], T, G)]]
+                           vals |-> [j \in 1..Len(rw.variants) |-> Pack(rw.variants[j], T, G)],
+                           nodes |-> IF EmitNodes
+                                     THEN [j \in 1..Len(rw.variants) |->
+                                             LET ns == Nodes(rw.variants[j]) IN [n \in 1..Len(ns) |-> Pack(ns[n], T, G)]]
+                                     ELSE <<>>]
 EmitRw(rw, T, G, extra) == PrintT(<<"T", ToJson(RwRec(rw, T, G, extra))>>)
 
 EmitTables == PrintT(<<"T", ToJson([table |-> [id \in 1..NRows |-> [id |-> id, i |-> ShowV(Table[id].i), f |-> ShowV(Table[id].f), s |-> ShowV(Table[id].s)]],
                                     utable |-> [u \in 1..NU |-> [uid |-> u, k |-> ShowV(TableU[u].k)]],
-                                    natoms |-> NAtoms])>>)
+                                    natoms |-> NAtoms,
+                                    \* truth tables of the connectives over the valuations of TableV (A = first, B = second operand)
+                                    tt |-> [not |-> Pack(NotE(OA), TableV, 9), isnull |-> Pack(IsNullE(OA), TableV, 9),
+                                            isnotnull |-> Pack(IsNotNullE(OA), TableV, 9),
+                                            and |-> Pack(AndE(OA, OB), TableV, 9), or |-> Pack(OrE(OA, OB), TableV, 9)]])>>)
 
 ---------------------------------------------------------------------------
 (* the search *)
-St(l, k, e, e2) == [lvl |-> l, k |-> k, e |-> e, e2 |-> e2]
+St(l, k, e, e2) == [lvl |-> l, k |-> k, m |-> 0, e |-> e, e2 |-> e2]
 Init == st = St(0, 0, Dummy, Dummy)
 
+(* bfs: level 1 = an atom number k; level 2 = the atom, NOT / IS NULL / IS NOT NULL of it, and atom k AND / OR a
+   second atom m (every m, or a seeded choice of Partners atoms) *)
 BfsNext == \/ st.lvl = 0 /\ \E k \in 1..NAtoms : st' = St(1, k, Dummy, Dummy)
-           \/ st.lvl = 1 /\ \E t \in Grow(st.k) : st' = St(2, st.k, t, Dummy)
+           \/ st.lvl = 1 /\ \E t \in {AtomSeq[st.k], NotE(AtomSeq[st.k]), IsNullE(AtomSeq[st.k]), IsNotNullE(AtomSeq[st.k])} :
+                                st' = St(2, st.k, t, Dummy)
+           \/ st.lvl = 1 /\ \E m \in PartnerIdx(st.k) : st' = [St(2, st.k, AndE(AtomSeq[st.k], AtomSeq[m]), Dummy) EXCEPT !.m = m]
+           \/ st.lvl = 1 /\ \E m \in PartnerIdx(2 * st.k + 1) : st' = [St(2, st.k, OrE(AtomSeq[st.k], AtomSeq[m]), Dummy) EXCEPT !.m = m]
 
-(* walk: st.e is the tree under construction (emitted at every step), st.e2 a second tree that is merged in;
-   the atoms offered at a step are a seeded choice that depends on the shape of the current trees *)
-WalkAtoms(e, n) == {AtomSeq[PickIdx(Depth(e) * 17 + Len(Nodes(e)) * 5 + st.k, j)] : j \in 1..n}
-WalkNext ==
-    \/ st.lvl = 0 /\ \E k \in 1..NAtoms, m \in 1..4 : st' = St(1, k, AtomSeq[k], AtomSeq[PickIdx(k, m)])
-    \/ st.lvl >= 1 /\ \E t \in {NotE(st.e), IsNullE(st.e), IsNotNullE(st.e)}
-                             \cup UNION {{AndE(st.e, b), AndE(b, st.e), OrE(st.e, b), OrE(b, st.e)} : b \in WalkAtoms(st.e, 3)} :
-                        st' = St(st.lvl + 1, st.k, t, st.e2)
-    \/ st.lvl >= 1 /\ \E t \in {NotE(st.e2)} \cup UNION {{AndE(st.e2, b), OrE(b, st.e2)} : b \in WalkAtoms(st.e2, 2)} :
-                        st' = St(st.lvl + 1, st.k, st.e, t)
-    \/ st.lvl >= 1 /\ \E o \in {"and", "or"}, sw \in BOOLEAN :
-                        st' = St(st.lvl + 1, st.k, IF sw THEN Node(o, <<st.e, st.e2>>) ELSE Node(o, <<st.e2, st.e>>),
-                                 AtomSeq[PickIdx(Len(Nodes(st.e)) + st.k, Depth(st.e2) + 1)])
+(* walk: st.e is the tree under construction (emitted at every step), st.e2 a second tree that is merged in.
+   st.k is the walk number; Rnd(w, l, j) is the j-th pseudo-random number of step l of walk w. *)
+Rnd(w, l, j) == LET x == (w * 7919 + l * 1031 + j * 131 + (Seed % 1000) * 31337) % 46337 IN (x * x) % 46337
+RAtom(w, l, j) == AtomSeq[(Rnd(w, l, j) % NAtoms) + 1]
+Bin(w, l, a, b) == IF Rnd(w, l, 2) % 2 = 0 THEN AndE(a, b) ELSE OrE(a, b)
+WalkStep(w, l, e, e2) ==
+    LET r == Rnd(w, l, 0) % 12  a == RAtom(w, l, 1) IN
+    CASE r = 0 -> St(l + 1, w, NotE(e), e2)
+      [] r = 1 -> St(l + 1, w, IsNullE(e), e2)
+      [] r = 2 -> St(l + 1, w, IsNotNullE(e), e2)
+      [] r \in {3, 4} -> St(l + 1, w, Bin(w, l, e, a), e2)
+      [] r \in {5, 6} -> St(l + 1, w, Bin(w, l, a, e), e2)
+      [] r = 7 -> St(l + 1, w, e, NotE(e2))
+      [] r = 8 -> St(l + 1, w, e, Bin(w, l, e2, a))
+      [] r \in {9, 10} -> St(l + 1, w, Bin(w, l, e, e2), a)
+      [] r = 11 -> St(l + 1, w, Bin(w, l, e2, e), a)
+WalkNext == \/ st.lvl = 0 /\ \E w \in 1..Walks : st' = St(1, w, RAtom(w, 0, 1), RAtom(w, 0, 3))
+            \/ st.lvl >= 1 /\ st.lvl < WalkLen /\ st' = WalkStep(st.k, st.lvl, st.e, st.e2)
 
 (* rw: level 2 = a predicate (atom number k, or a depth-2 tree over atom k and a seeded partner) *)
 RwPreds(k) == LET a == AtomSeq[k] IN
               {a} \cup {AndE(a, AtomSeq[m]) : m \in PartnerIdx(k)} \cup {OrE(a, AtomSeq[m]) : m \in PartnerIdx(3 * k + 2)}
                   \cup (IF k % 4 = 0 THEN {NotE(a)} ELSE IF k % 4 = 1 THEN {IsNullE(a)} ELSE {})
-RwNext == \/ st.lvl = 0 /\ \E k \in 1..NAtoms : st' = St(1, k, Dummy, Dummy)
+RwNext == \/ st.lvl = 0 /\ \E k \in {j \in 1..NAtoms : (j + Seed) % Stride = 0} : st' = St(1, k, Dummy, Dummy)
           \/ st.lvl = 1 /\ \E p \in RwPreds(st.k) : st' = St(2, st.k, p, AtomSeq[PickIdx(st.k, 7)])
 
 OpqNext == st.lvl = 0 /\ \E j \in 1..Len(OpqBase) : st' = St(2, j, OpqBase[j], Dummy)
@@ -291,14 +337,15 @@ Next == CASE Mode = "bfs" -> BfsNext [] Mode = "walk" -> WalkNext [] Mode = "rw"
 RwW(p) == Len(Nodes(p)) + st.k + (Seed % 7)
 Visit ==
     CASE st.lvl = 0 -> EmitTables
-      [] Mode = "bfs" /\ st.lvl = 2 -> EmitCase(st.e) /\ (CheckLaws => Laws(st.e))
-      [] Mode = "walk" /\ st.lvl >= 1 -> EmitCase(st.e) /\ (CheckLaws => Laws(st.e))
+      [] Mode = "bfs" /\ st.lvl = 2 -> /\ PrintT(<<"T", ToJson([e |-> Show(st.e), v |-> PackVec(FastVec(st.e, st.k, st.m), NRows, 10)])>>)
+                                       /\ (LawsDue(st.e, st.k) => Laws(st.e) /\ FastIsEval(st.e, st.k, st.m))
+      [] Mode = "walk" /\ st.lvl >= 1 -> EmitCase(st.e) /\ (LawsDue(st.e, st.k) => Laws(st.e))
       [] Mode = "rw" /\ st.lvl = 2 ->
            LET p == st.e  w == RwW(p)
                rws == Rewrites(p, st.e2, TrueConjuncts[(w % Len(TrueConjuncts)) + 1], FalseDisjuncts[(w % Len(FalseDisjuncts)) + 1])
                jf == JoinForms(p) IN
            /\ \A j \in 1..Len(rws) : RewriteSound(rws[j], Table) /\ EmitRw(rws[j], Table, 10, "t")
-           /\ (CheckLaws => Laws(p))
+           /\ (LawsDue(p, st.k) => Laws(p))
            /\ LET q == jf[(w % Len(jf)) + 1]
                   rw == [kind |-> "reorder_from", same |-> TRUE, variants |-> <<q>>] IN
               (w % 3 = 0) => EmitRw(rw, TableTU, 10, "tu")
